@@ -52,6 +52,9 @@ pub struct StreamSpec {
     pub initially: usize,
     /// does the stream end after its items (else it stays pending forever)
     pub ends: bool,
+    /// after its listed items the stream keeps yielding fresh items, always ready, for ever
+    #[serde(default)]
+    pub infinite: bool,
 }
 
 #[derive(Serialize, Deserialize, Clone, Debug, PartialEq)]
